@@ -60,6 +60,10 @@ pub struct Input {
     /// listed twice, nor in invocations that starve file descriptors (the
     /// feeding thread lives in the same process).
     pub fifo: Vec<bool>,
+    /// per file: lines / records end with CR LF instead of LF
+    pub crlf: Vec<bool>,
+    /// map values are written with leading zeros (`00000000000000000042`)
+    pub pad_values: bool,
 }
 
 /// A thread that feeds one FIFO input.
@@ -145,19 +149,22 @@ impl Input {
 
     fn content(&self, i: usize) -> String {
         let f = &self.files[i];
+        let nl = if self.crlf.get(i).copied().unwrap_or(false) { "\r\n" } else { "\n" };
         let mut s = String::new();
         for (k, v) in f {
             if self.mode == Mode::Set {
                 s.push_str(k);
-                s.push('\n');
+            } else if self.pad_values {
+                s.push_str(&format!("{},{:020}", k, v));
             } else {
-                s.push_str(&format!("{},{}\n", k, v));
+                s.push_str(&format!("{},{}", k, v));
             }
+            s.push_str(nl);
         }
         // (a blank last line needs its newline to be a line at all)
         let blank_last = self.mode == Mode::Set && f.last().map(|(k, _)| k.is_empty()).unwrap_or(false);
-        if !self.trailing_newline.get(i).copied().unwrap_or(true) && s.ends_with('\n') && !blank_last {
-            s.pop();
+        if !self.trailing_newline.get(i).copied().unwrap_or(true) && s.ends_with(nl) && !blank_last {
+            s.truncate(s.len() - nl.len());
         }
         s
     }
@@ -488,6 +495,8 @@ pub fn sorted_build(input: &Input, dir: &Path) -> Result<Vec<u8>, String> {
         stale_output: 0,
         listed_twice: vec![],
         fifo: vec![],
+        crlf: vec![],
+        pad_values: false,
         files: vec![model
             .iter()
             .map(|(k, v)| (String::from_utf8_lossy(k).to_string(), *v))
